@@ -1,9 +1,10 @@
 #!/bin/sh
 # tools/confirm_seeded.sh <name> <worktree> <outdir> <check ids...>
 # Confirms a seeded change independently (suite passes with it; demo fails with it and passes without it),
-# stores it under seeded/<name>/, then applies it to /repo, runs the given checks (quick), and undoes it.
+# stores it under seeded/<name>/, then runs the given checks (quick) against a scratch worktree with the change
+# (tools/try_patch.sh; /repo itself is never touched).
 name="$1"; wt="$2"; out="$3"; shift 3
-HERE="$(pwd)"
+HERE="$(cd "$(dirname "$0")/.." && pwd)"; cd "$HERE" || exit 2
 set -u
 mkdir -p "seeded/$name"
 cp "$out/patch.diff" "seeded/$name/patch.diff"
@@ -12,23 +13,17 @@ cp "$out/meta.json" "seeded/$name/meta.json" 2>/dev/null
 log="seeded/$name/confirm.log"; : > "$log"
 git -C "$wt" checkout -q -- . && git -C "$wt" apply "$HERE/seeded/$name/patch.diff" || { echo "patch does not apply to a clean worktree" | tee -a "$log"; exit 1; }
 echo "== suite with the change" | tee -a "$log"
-/tmp/wt/run_tests.sh "$wt" 2>&1 | tail -4 | tee -a "$log"
+VERIF_REPO="$wt" python3 tools/baseline.py > /tmp/suite.$$.out 2>&1 && echo "SUITE OK" >> /tmp/suite.$$.out || echo "SUITE BROKEN" >> /tmp/suite.$$.out
+tail -4 /tmp/suite.$$.out | tee -a "$log"; rm -f /tmp/suite.$$.out
 echo "== demo with the change (must be non-zero)" | tee -a "$log"
 (cd "$wt" && PYTHONPATH="$wt" /venv/bin/python "$HERE/seeded/$name/demo.py" > /tmp/demo.$$.out 2>&1; echo "exit=$?" >> /tmp/demo.$$.out); tail -3 /tmp/demo.$$.out | tee -a "$log"
 git -C "$wt" checkout -q -- .
 echo "== demo without the change (must be 0)" | tee -a "$log"
 (cd "$wt" && PYTHONPATH="$wt" /venv/bin/python "$HERE/seeded/$name/demo.py" > /tmp/demo.$$.out 2>&1; echo "exit=$?" >> /tmp/demo.$$.out); tail -2 /tmp/demo.$$.out | tee -a "$log"
 rm -f /tmp/demo.$$.out
-echo "== checks against /repo with the change applied" | tee -a "$log"
-git -C /repo apply "$HERE/seeded/$name/patch.diff" || { echo "patch does not apply to /repo" | tee -a "$log"; exit 1; }
+echo "== checks against a scratch copy with the change applied" | tee -a "$log"
+tools/try_patch.sh "$name" "seeded/$name/patch.diff" "$@" | tee -a "$log"
 for c in "$@"; do
-  ./check "$c" --tier quick > /tmp/chk.$$.out 2>&1; rc=$?
-  echo "check $c rc=$rc $(grep -E 'VIOLATION' /tmp/chk.$$.out | head -1)" | tee -a "$log"
-  if [ $rc -eq 1 ]; then
-    rp=$(grep -E 'VIOLATION' /tmp/chk.$$.out | head -1 | sed 's/.*replay=\([^ ]*\).*/\1/')
-    [ -f "$rp" ] && cp "$rp" "seeded/$name/replay-$c.json"
-  fi
+  rp=$(grep -E 'VIOLATION' "evidence-scratch/$name/$c.out" 2>/dev/null | head -1 | sed 's/.*replay=\([^ ]*\).*/\1/')
+  [ -n "$rp" ] && [ -f "$rp" ] && cp "$rp" "seeded/$name/replay-$c.json"
 done
-rm -f /tmp/chk.$$.out
-git -C /repo checkout -q -- .
-git -C /repo status --short | tee -a "$log"
